@@ -57,7 +57,7 @@ def run(cx):
         for ob in R.all_bodies():
             if ob.path != b.path and call_sites(ob, "Vec::push", r"\.active_clients"):
                 inst.violation(ob.path, "Vec::push(active_clients)", "active_clients grows outside handle_handshake_ack")
-    with cx.instance("C17.c", "T2 PAIR", "every write of State::Fin to a mapped client is followed by clients.remove; step() prunes active_clients by is_active", floor=7) as inst:
+    with cx.instance("C17.c", "T2 PAIR", "every write of State::Fin to a mapped client is followed by clients.remove; step() prunes active_clients by is_active", floor=5) as inst:
         n = 0
         for ob in R.all_bodies():
             if not ob.path.startswith("server::Server::"):
@@ -145,6 +145,12 @@ _run_core = run
 def run(cx):
     _run_core(cx)
     timers_scheduled(cx, "C17.d")
+    # what the limits count: an entry removed from the map while not terminal stays in active_clients but is no
+    # longer counted by clients.len()
+    from props.shared import removal_implies_fin
+    removal_implies_fin(cx, "C17.e")
+    from props.shared import heap_order
+    heap_order(cx, "C17.f", ["event"])
 
 
 SELFTEST = [
